@@ -43,6 +43,7 @@ type profile struct {
 	eventKinds   []string
 	reqKinds     []string
 	limitRunPct  int // percentage of histories that start by driving one subscription to the count limit
+	mutatePct    int // percentage of service messages structurally mutated (only C15 checks apply then)
 }
 
 func stdUniverse() *universe {
@@ -55,6 +56,8 @@ func stdUniverse() *universe {
 			{name: "q.m", kind: 'm', query: true}, {name: "q.c", kind: 'c', query: true},
 			{name: "cid.{cid}.m", kind: 'm'}, {name: "m.pq", kind: 'm'},
 			{name: long, kind: 'm'},
+			// leaves used by the reference burst of profile throttle (never picked at random)
+			{name: "m.l1", kind: 'm'}, {name: "m.l2", kind: 'm'}, {name: "m.l3", kind: 'm'}, {name: "m.l4", kind: 'm'}, {name: "m.l5", kind: 'm'},
 		},
 		norm: map[string]string{"q=a": "q=n1", "q=b": "q=n1", "q=c": "q=n2", "q=n1": "q=n1", "q=n2": "q=n2"},
 		init: map[string]string{
@@ -62,6 +65,7 @@ func stdUniverse() *universe {
 			"m.self": "k1=r:m.self,k2=p1", "c.a": "p1,r:m.b,r:m.b,p2", "c.b": "r:c.a,r:m.c,s:m.a",
 			"m.r2e": "k1=r:m.err,k2=p4", "q.m?q=n1": "k1=p1", "q.m?q=n2": "k1=p2,k2=r:m.b", "q.c?q=n1": "p1,p2",
 			"q.c?q=n2": "p3", "cid.{cid}.m": "k1=p9", long: "k1=p1", "m.pq": "k1=p1,k2=r:m.b",
+			"m.l1": "k1=p1", "m.l2": "k1=p2", "m.l3": "k1=p3", "m.l4": "k1=p4", "m.l5": "k1=p5",
 		},
 	}
 	u.rids = []string{"m.a", "m.b", "m.c", "m.self", "c.a", "c.b", "m.err", "m.r2e", "q.m?q=a", "q.m?q=b", "q.m?q=c",
@@ -168,6 +172,14 @@ func profiles() map[string]profile {
 	p.wRawFrame = 8
 	p.eventKinds = []string{"change", "add", "remove", "custom", "badkind", "badpayload", "badpayload", "query"}
 	ps["malformed"] = p
+
+	p = baseProfile("mutate") // any service message may be a structural mutation of a valid one
+	p.rids = []string{"c.a", "c.b", "m.a", "m.b", "q.c?q=a", "q.m?q=a", "m.err"}
+	p.wEvent, p.wToken, p.wReset, p.wTokenReset = 24, 5, 5, 3
+	p.eventKinds = []string{"change", "add", "remove", "custom", "delete", "reaccess", "query", "query"}
+	p.reqKinds = []string{"subscribe", "subscribe", "get", "call", "auth", "new", "unsubscribe"}
+	p.mutatePct = 30
+	ps["mutate"] = p
 	return ps
 }
 
@@ -360,6 +372,20 @@ func (g *gen) answerOne(r *mockReq, drain bool) {
 			w.answer(r, "malformed:"+hx(bad), []byte(bad), nil)
 			return
 		}
+		if !drain && g.r.chance(g.p.malformedPct+3, 100) {
+			// a reset re-fetch answered with the other resource type: logged and ignored, and the
+			// resource must go on working afterwards (C15 containment)
+			name := strings.TrimPrefix(r.subject, "get.")
+			if d := w.truth.defFor(name); d != nil && !d.query && d.getErr == "" && g.isResetting(name) {
+				if d.kind == 'm' {
+					w.answer(r, "ok:c[p1,p2]:q=", []byte(`{"result":{"collection":[1,2]}}`), nil)
+				} else {
+					w.answer(r, "ok:m{a=p1}:q=", []byte(`{"result":{"model":{"a":1}}}`), nil)
+				}
+				g.kinds["answer:reset-type-mismatch"]++
+				return
+			}
+		}
 		l, d, e := w.truth.getResponse(r.subject, r.payload)
 		w.answer(r, l, d, e)
 	case "call":
@@ -403,12 +429,31 @@ func (g *gen) answerOne(r *mockReq, drain bool) {
 			w.answer(r, "timeout", nil, mq.ErrRequestTimeout)
 			return
 		}
+		if !drain && g.r.chance(g.p.malformedPct, 100) {
+			// answers a service must not give: none may crash the gateway or change anything
+			bad := pick(g.r, []string{`{"result":{"events":[null]}}`, `{"result":{"events":[{"event":"change"}]}}`, `{"result":{"events":[{"event":"add","data":{"idx":99,"value":1}}]}}`,
+				`{"result":{"events":[1]}}`, `{"result":{"events":{}}}`, `{"result":{"model":{"a":{"x":1}}}}`, `{"result":{"model":{},"events":[]}}`, `not json`, `{"result":null}`,
+				`{"result":{"events":[{"event":"","data":null}]}}`, `{"result":{"events":[{"data":{}}]}}`, `{"result":{"events":[{"event":"remove","data":{"idx":-1}}]}}`,
+				`{"result":{"collection":[{"rid":""}]}}`, `{"result":{"events":[{"event":"change","data":{"values":{"a":{"rid":"m..a"}}}}]}}`, `{"result":{"events":[null,null]}}`})
+			w.answer(r, "malformed:"+hx(bad), []byte(bad), nil)
+			return
+		}
 		if g.r.chance(1, 4) {
 			w.answer(r, "qevents:", []byte(`{"result":{"events":[]}}`), nil)
 			return
 		}
 		w.answer(r, "qfull:"+string(tr.def.kind)+tr.contentAbs(), []byte(`{"result":{`+tr.contentJSON()+`}}`), nil)
 	}
+}
+
+// isResetting: the cached base resource of that name is waiting for a reset re-fetch.
+func (g *gen) isResetting(name string) bool {
+	for _, e := range g.w.serv.VerifCache().VerifSnapshot() {
+		if e.Name == name && e.Base != nil && e.Base.Resetting {
+			return true
+		}
+	}
+	return false
 }
 
 func (g *gen) qeResource(subject string) string {
@@ -783,6 +828,55 @@ func (g *gen) limitRun() {
 	g.drain()
 }
 
+// refBurst: one change event adds five uncached references to a model held by one connection.
+// All of them are loaded under the subscription's reference throttle: at no moment may more
+// than `limit` of their get requests be outstanding (C19), and all must eventually be sent.
+func (g *gen) refBurst(limit int) {
+	cs := g.liveClients()
+	if len(cs) == 0 {
+		return
+	}
+	c := cs[0]
+	g.kinds["ref-burst"]++
+	g.w.request(c, "subscribe.m.self", "")
+	g.drain()
+	tr := g.w.truth.get("m.self", "")
+	if tr == nil || tr.deleted || g.w.stall != "" {
+		return
+	}
+	leaves := []string{"m.l1", "m.l2", "m.l3", "m.l4", "m.l5"}
+	var parts []string
+	for i, l := range leaves {
+		k := fmt.Sprintf("b%d", i)
+		tr.model[k] = aval("r:" + l)
+		parts = append(parts, fmt.Sprintf("%q:{\"rid\":%q}", k, l))
+	}
+	g.w.publish("event.m.self.change", `{"values":{`+strings.Join(parts, ",")+`}}`)
+	seen := map[string]bool{}
+	for round := 0; round < 12; round++ {
+		var burst []*mockReq
+		for _, rq := range g.w.mq.outstanding() {
+			for _, l := range leaves {
+				if rq.subject == "get."+l {
+					burst = append(burst, rq)
+					seen[l] = true
+				}
+			}
+		}
+		if len(burst) > limit {
+			g.w.addViolation("C19", "reference-burst-exceeds-limit", fmt.Sprintf("%d get requests for references added by one event are outstanding, the reference throttle is %d", len(burst), limit))
+		}
+		if len(burst) == 0 {
+			break
+		}
+		g.answerOne(burst[len(burst)-1], true) // newest first
+	}
+	g.drain()
+	if len(seen) != len(leaves) && g.w.stall == "" {
+		g.w.addViolation("C19", "reference-never-requested", fmt.Sprintf("only %d of %d references added by one event were ever requested", len(seen), len(leaves)))
+	}
+}
+
 // drain answers every outstanding request (grants, current state) until none is left.
 func (g *gen) drain() {
 	for i := 0; i < 400; i++ {
@@ -806,6 +900,7 @@ type historyResult struct {
 	RefThr  int            `json:"refThrottle"`
 	RstThr  int            `json:"resetThrottle"`
 	Flat    bool           `json:"flat"`
+	Mutated bool           `json:"mutated,omitempty"`
 }
 
 // runHistory generates and runs one history.
@@ -820,6 +915,10 @@ func runHistory(p profile, seed uint64, index int, keepSteps bool, wantSnap bool
 		return hr
 	}
 	w.wantSnap = wantSnap
+	if p.mutatePct > 0 {
+		w.mutatePct = p.mutatePct
+		w.mrng = newRng(seed*7777 + uint64(index)*31 + 5)
+	}
 	if crashLog != nil {
 		crashLog.Truncate(0)
 		crashLog.Seek(0, 0)
@@ -831,6 +930,9 @@ func runHistory(p profile, seed uint64, index int, keepSteps bool, wantSnap bool
 	g.connect()
 	if p.limitRunPct > 0 && int(r.next()%100) < p.limitRunPct {
 		g.limitRun()
+	}
+	if p.name == "throttle" && cfg.referenceThrottle > 0 && r.chance(1, 4) {
+		g.refBurst(cfg.referenceThrottle)
 	}
 	for i := 0; i < p.steps && w.stall == ""; i++ {
 		g.step()
@@ -861,6 +963,16 @@ func runHistory(p profile, seed uint64, index int, keepSteps bool, wantSnap bool
 	w.drainedChecks()
 	w.close()
 	hr.Viols = w.viols
+	if w.mutated {
+		// the truth and the monitors do not know what a mutated message meant
+		hr.Mutated = true
+		hr.Viols = nil
+		for _, v := range w.viols {
+			if v.Prop == "C15" {
+				hr.Viols = append(hr.Viols, v)
+			}
+		}
+	}
 	hr.Kinds = g.kinds
 	hr.NSteps = len(w.steps)
 	if keepSteps || len(w.viols) > 0 {
